@@ -1818,7 +1818,8 @@ def run(ctx):
         "C08: CPython isinstance (the subclass table), typing.get_type_hints (merged hints and their order), hasattr/dir "
         "and dict order are inputs of the model; components have an execute() method and annotated __init__ parameters "
         "only; user code in __init__/setup does not touch the injection machinery; autonomous modes are handed to "
-        "_create_components() as objects (the selector's loading is C14)")
+        "_create_components() as objects (the selector's loading is C14); the driver station (FMS attached, enabled) is "
+        "wpilib's simulated one and keeps one state during a start-up")
     ctx.prove()
     n_random = 30000 if ctx.tier == "thorough" else 2000
     specs = load_corpus()
